@@ -1,54 +1,97 @@
-"""C18 (E-T): one inductive step of each std Map operation from an ARBITRARY valid tree.
+"""C18 (E-T): one inductive step of each std Map / Set operation from an ARBITRARY valid tree.
 
-`corpus_spec/MapSpec.sam` states, in samlang, the representation invariant of std/map.sam and the finite
-map a tree denotes; each `step*` function assumes the invariant for a symbolic tree of bounded height,
-performs one real operation and asserts the finite-map meaning of the result (and that the invariant is
-re-established).  The program is compiled by the real compiler together with std/map.sam; E-T executes the
-MIR of each step function on symbolic arguments (lazily initialised trees constrained to well-formed
-representations) and asks the solver whether any `Process.panic` is reachable.  Because the pre-state is
-arbitrary, one step covers operation sequences of any length over trees within the height bound.
+`corpus_spec/MapSpec.sam` and `corpus_spec/SetSpec.sam` state, in samlang, the representation invariant of
+std/map.sam and std/set.sam and the finite map / set a tree denotes; each `step*` function assumes the invariant
+for symbolic trees of bounded height, performs one real operation and asserts the finite-map meaning of the
+result (and that the invariant is re-established).  The programs are compiled by the real compiler together with
+the current std sources; E-T executes the MIR of each step function on symbolic arguments (lazily initialised
+trees constrained to well-formed representations) and asks the solver whether any `Process.panic` is reachable.
+Because the pre-state is arbitrary, one step covers operation sequences of any length over trees within the
+height bound.  A witness is replayed in node on the TypeScript the real compiler emits for the same program and
+reported only if the same panic occurs there.
 """
 import concurrent.futures
 import json
 import os
+import random
+import re
+import subprocess
 import time
 
 import z3
 
-import re
-import subprocess
-
 from vlib import irsym, ts2js
 from vlib.common import Inconclusive, VERIF, load_known
 
-STEPS_QUICK = [("stepGet", 200), ("stepInsert", 120), ("stepRemove", 420), ("stepMinMax", 240), ("stepRemoveRoot", 420)]
-MAPT = "std$map_Map__std$boxed_Int_int"
+BOUNDS = {"forks": 50, "steps": 400000, "paths": 40000, "depth": 80}
+
+# per specification program: (step function, time budget in the quick tier (s), suffix of the std function a path must enter)
+SPECS = [
+    {"name": "MapSpec", "lib": "std$map",
+     "steps": [
+         ("stepGet", 200, "$get"), ("stepInsert", 120, "$insert"), ("stepRemove", 420, "$remove"), ("stepMinMax", 240, "$min"),
+         ("stepRemoveRoot", 420, "$remove"), ("stepKeys", 300, "$keys"), ("stepEntries", 300, "$entries"), ("stepFold", 300, "$fold"),
+         ("stepQuantifiers", 300, "$exists"), ("stepUpdateSet", 200, "$update"), ("stepUpdateDel", 420, "$update"),
+         ("stepUpdateMod", 300, "$update"), ("stepSplit", 420, "$split"), ("stepFilter", 420, "$filter"),
+         ("stepPartition", 420, "$partition"), ("stepCompare", 420, "$compare"),
+     ]},
+    {"name": "SetSpec", "lib": "std$set",
+     "steps": [
+         ("stepContains", 200, "$contains"), ("stepInsert", 120, "$insert"), ("stepRemove", 420, "$remove"),
+         ("stepRemoveRoot", 420, "$remove"), ("stepMinMax", 240, "$min"), ("stepElements", 300, "$elements"),
+         ("stepFold", 300, "$fold"), ("stepSplit", 420, "$split"), ("stepFilter", 420, "$filter"), ("stepUnion", 420, "$union"),
+         ("stepIntersection", 420, "$intersection"), ("stepDiff", 420, "$diff"), ("stepSubset", 420, "$subset"),
+         ("stepCompare", 420, "$compare"), ("stepFromList", 300, "$fromList"), ("stepMap", 420, "$map"),
+     ]},
+]
+SPECS.append(
+    {"name": "ListSpec", "lib": "std$list",
+     "steps": [("stepReverse", 200, "$reverse"), ("stepAppend", 200, "$append"), ("stepFilter", 200, "$filter"),
+               ("stepSearch", 200, "$find"), ("stepBind", 200, "$bind")]})
+STD = ["map", "set", "list", "option", "boxed", "tuples", "interfaces", "result"]
 
 
-def js_value(witness, key, ty):
-    """the concrete value a solver model assigns to argument `key`, in the representation of the emitted TypeScript:
-    Empty = 1, Leaf = [3, [k], v], Node = [5, h, [k], v, l, r], Int = [n]"""
+def tname(ty):
+    return ty if isinstance(ty, str) else ty.get("id")
+
+
+def js_value(witness, key, ty, types, depth=0):
+    """the concrete value a solver model assigns to the unknown object `key` of MIR type `ty`, in the representation
+    of the emitted TypeScript: struct = [fields..], data-free variant k = 2k+1, boxed variant k = [2k+1, fields..],
+    unboxed variant = its payload"""
     F = witness["object_fields"]
     facts = witness["object_facts"]
-    if ty == "int":
-        return witness["arguments"].get(key, 0)
-    if ty == "std$boxed_Int":
-        return [F.get(key + "@std$boxed_Int.f0", 0)]
-    if ty == MAPT:
-        tag = F.get(key + "@#tag.f0")
-        if facts.get("isi31!" + key) or tag is None:
-            return 1
-        if tag == 3:
-            b = key + "@" + MAPT + "$_Sub1"
-            return [3, js_value(witness, b + ".f1", "std$boxed_Int"), F.get(b + ".f2", 0)]
-        if tag == 5:
-            b = key + "@" + MAPT + "$_Sub2"
-            return [5, F.get(b + ".f1", 0), js_value(witness, b + ".f2", "std$boxed_Int"), F.get(b + ".f3", 0),
-                    js_value(witness, b + ".f4", MAPT), js_value(witness, b + ".f5", MAPT)]
+    if depth > 12:
+        raise Inconclusive("model value of %s is too deep" % key)
+    t = types.get(tname(ty))
+    if t is None:
+        raise Inconclusive("cannot turn the model value of %s : %s into a concrete value" % (key, ty))
+
+    def field(view, i, fty):
+        k = "%s@%s.f%d" % (key, view, i)
+        if fty == "int":
+            return F.get(k, 0)
+        return js_value(witness, k, fty, types, depth + 1)
+
+    if t["kind"] == "struct":
+        return [field(t["name"], i, fty) for i, fty in enumerate(t["fields"])]
+    variants = t.get("variants") or []
+    tag = F.get(key + "@#tag.f0")
+    for k, var in enumerate(variants):
+        if var["k"] == "boxed" and tag == 2 * k + 1 and not facts.get("isi31!" + key):
+            view = "%s$_Sub%d" % (t["name"], k)
+            return [tag] + [field(view, i, fty) for i, fty in enumerate(var["fields"]) if i > 0]
+    for k, var in enumerate(variants):
+        if var["k"] == "unboxed" and facts.get("isptr!%s!%s" % (key, var["t"])):
+            return js_value(witness, key, var["t"], types, depth + 1)
+    data_free = [k for k, var in enumerate(variants) if var["k"] == "int31"]
+    if data_free:
+        k = witness.get("i31", {}).get(key)
+        return 2 * (k if k in data_free else data_free[0]) + 1
     raise Inconclusive("cannot turn the model value of %s : %s into a concrete value" % (key, ty))
 
 
-def replay(js_text, fn, params, ptypes, witness, workdir, tag):
+def replay(js_text, main_call, fn, params, ptypes, types, witness, workdir, tag):
     """run the witness against the program the real compiler emitted (its TypeScript output, types stripped, in node).
     -> (panic message or None, js value list)"""
     m = re.search(r"^function %s\(([^)]*)\) \{$" % re.escape(fn), js_text, re.M)
@@ -59,10 +102,8 @@ def replay(js_text, fn, params, ptypes, witness, workdir, tag):
     for n in names:
         i = params.index(n)
         ty = ptypes[i]
-        ty = ty if isinstance(ty, str) else ty.get("id")
-        key = n if ty == "int" else "a%d" % i
-        vals.append(js_value(witness, key, ty))
-    body = "\n".join(l for l in js_text.split("\n") if not re.match(r"^_MapSpec_Main\$main\(\);$", l))
+        vals.append(witness["arguments"].get(n, 0) if ty == "int" else js_value(witness, "a%d" % i, ty, types))
+    body = "\n".join(l for l in js_text.split("\n") if l.strip() != main_call)
     body += "\nconst ARGS = %s;\ntry { %s(...ARGS); console.log('REPLAY returned'); } catch (e) { console.log('REPLAY PANIC ' + e.message); }\n" % (json.dumps(vals), fn)
     path = os.path.join(workdir, "replay_%s.js" % tag)
     open(path, "w").write(body)
@@ -72,15 +113,13 @@ def replay(js_text, fn, params, ptypes, witness, workdir, tag):
         raise Inconclusive("replay: node produced no verdict: %s" % (p.stderr[-300:]))
     return (out[-1][len("REPLAY PANIC "):] if out[-1].startswith("REPLAY PANIC ") else None), vals
 
-BOUNDS = {"forks": 50, "steps": 400000, "paths": 40000, "depth": 80}
-
 
 def _run_step(job):
-    mir_file, step, seconds = job
+    mir_file, spec, step, seconds, op, lib, seed = job
     P = irsym.Prog(json.load(open(mir_file)))
     names = [n for n in P.fns if n.endswith("$" + step)]
     if len(names) != 1:
-        return {"step": step, "status": "missing"}
+        return {"spec": spec, "step": step, "status": "missing"}
     fn = names[0]
     w = irsym.World()
     w.is_subtype = P.is_subtype
@@ -88,20 +127,23 @@ def _run_step(job):
     b = dict(BOUNDS, seconds=seconds)
     ex = irsym.Exec(P, w, "new", True, b)
     ex.deadline = time.time() + seconds
+    if seed:
+        ex.rng = random.Random("%s.%s.%d" % (spec, step, seed))
     f = P.fns[fn]
     args = irsym.mk_args(f, w)
     t0 = time.time()
     try:
         paths = ex.run(fn, args)
     except irsym.Unsupported as e:
-        return {"step": step, "status": "unsupported", "why": str(e)}
-    out = {"step": step, "status": "ok", "paths": len(paths), "returned": 0, "bounded": 0, "panic_paths": 0, "infeasible_panic_paths": 0,
-           "reached_operation": 0, "violations": [], "wall_s": 0, "queries": ex.queries}
-    op = {"stepGet": "$get", "stepInsert": "$insert", "stepRemove": "$remove", "stepMinMax": "$min", "stepRemoveRoot": "$remove"}[step]
+        return {"spec": spec, "step": step, "status": "unsupported", "why": str(e)}
+    out = {"spec": spec, "step": step, "status": "ok", "paths": len(paths), "returned": 0, "bounded": 0, "panic_paths": 0,
+           "infeasible_panic_paths": 0, "reached_operation": 0, "violations": [], "wall_s": 0, "queries": ex.queries,
+           "fn": fn, "params": f["params"], "ptypes": f["ptypes"]}
     chk = z3.Solver()
     chk.set("timeout", 30000)
+    per_msg = {}
     for p in paths:
-        if any(n.endswith(op) and "std$map" in n for n in getattr(p, "entered", ())):
+        if any(n.endswith(op) and lib in n for n in getattr(p, "entered", ())):
             out["reached_operation"] += 1
         if p.outcome == "return":
             out["returned"] += 1
@@ -115,16 +157,15 @@ def _run_step(job):
             r = chk.check()
             if r == z3.sat:
                 m = chk.model()
-                msg = ""
                 if p.trace and p.trace[-1][0] == "__Process$panic":
                     a = p.trace[-1][2][-1] if p.trace[-1][2] else None
                     msg = a.s if isinstance(a, irsym.Str) else repr(a)
                 else:
                     msg = p.why or p.outcome
-                if len(out["violations"]) < 6:
-                    out["fn"], out["params"], out["ptypes"] = fn, f["params"], f["ptypes"]
+                per_msg[msg] = per_msg.get(msg, 0) + 1
+                if per_msg[msg] <= 3:
                     out["violations"].append({"message": msg, "outcome": p.outcome, "witness": irsym.model_args(m, f, w),
-                                              "entered": sorted(n for n in getattr(p, "entered", ()) if "std$map" in n)[:12]})
+                                              "entered": sorted(n for n in getattr(p, "entered", ()) if lib in n)[:12]})
                 else:
                     out["violations"].append({"message": msg})
             elif r == z3.unsat:
@@ -136,82 +177,101 @@ def _run_step(job):
     return out
 
 
+def prepare(sc, drv, scale=1, only=None, seed=0):
+    """compile the specification programs against the scratch copy of std; -> (jobs, progs)"""
+    std_mods = ["std.%s=%s" % (m, os.path.join(sc.w, "std", m + ".sam")) for m in STD if os.path.exists(os.path.join(sc.w, "std", m + ".sam"))]
+    jobs = []
+    progs = {}
+    for sp in SPECS:
+        src = os.path.join(VERIF, "corpus_spec", sp["name"] + ".sam")
+        od = os.path.join(sc.root, "et", sp["name"])
+        mods = [sp["name"] + "=" + src] + std_mods
+        p = drv.call(["dump", od, "none"] + mods, check=False, timeout=600)
+        if '"status":"ok"' not in p.stdout:
+            raise Inconclusive("the specification program %s does not compile against the current std: %s" % (sp["name"], p.stdout[:400]))
+        mir = os.path.join(od, "mir_unopt.json")
+        progs[sp["name"]] = {"mods": mods, "mir": mir, "js": None, "dir": os.path.join(sc.root, "et", sp["name"] + "Run")}
+        for step, secs, op in sp["steps"]:
+            if only is None or "%s.%s" % (sp["name"], step) in only:
+                jobs.append((mir, sp["name"], step, secs * scale, op, sp["lib"], seed))
+    return jobs, progs
+
+
 def run(res, tier, sc, drv):
-    spec = os.path.join(VERIF, "corpus_spec", "MapSpec.sam")
-    od = os.path.join(sc.root, "et", "MapSpec")
-    mods = ["MapSpec=" + spec, "std.map=" + os.path.join(sc.w, "std", "map.sam"), "std.list=" + os.path.join(sc.w, "std", "list.sam"),
-            "std.option=" + os.path.join(sc.w, "std", "option.sam"), "std.boxed=" + os.path.join(sc.w, "std", "boxed.sam"),
-            "std.tuples=" + os.path.join(sc.w, "std", "tuples.sam"), "std.interfaces=" + os.path.join(sc.w, "std", "interfaces.sam")]
-    p = drv.call(["dump", od, "none"] + mods, check=False, timeout=600)
-    if '"status":"ok"' not in p.stdout:
-        raise Inconclusive("the specification program does not compile against the current std: %s" % p.stdout[:400])
-    mir = os.path.join(od, "mir_unopt.json")
     scale = 1 if tier == "quick" else 6
-    jobs = [(mir, s, secs * scale) for s, secs in STEPS_QUICK]
+    only = os.environ.get("VERIF_C18_ONLY")
+    jobs, progs = prepare(sc, drv, scale, set(only.split(",")) if only else None, res.seed)
     known = load_known("C18")
     results = []
-    with concurrent.futures.ProcessPoolExecutor(max_workers=len(jobs)) as ex:
+    with concurrent.futures.ProcessPoolExecutor(max_workers=min(len(jobs), max(2, (os.cpu_count() or 4) - 1))) as ex:
         for r in ex.map(_run_step, jobs):
             results.append(r)
     total_paths = 0
-    js_text = [None]
     replayed = 0
     for r in results:
+        label = "%s.%s" % (r["spec"], r["step"])
         if r["status"] in ("missing", "unsupported"):
-            res.inconc("step %s: %s %s" % (r["step"], r["status"], r.get("why", "")))
+            res.inconc("step %s: %s %s" % (label, r["status"], r.get("why", "")))
             continue
         if r["status"] == "inconclusive":
-            res.inconc("step %s: solver unknown on a panic path" % r["step"])
+            res.inconc("step %s: solver unknown on a panic path" % label)
         total_paths += r["paths"]
         if r["reached_operation"] == 0:
-            res.inconc("step %s is vacuous: no path entered the operation under test" % r["step"])
+            res.inconc("step %s is vacuous: no path entered the operation under test" % label)
         msgs = {}
         for v in r["violations"]:
             msgs.setdefault(v["message"], []).append(v)
+        pg = progs[r["spec"]]
         for msg, vs in msgs.items():
             # replay the solver's witness against the program the real compiler emits before reporting it
-            if js_text[0] is None:
-                rd = os.path.join(sc.root, "et", "MapSpecRun")
-                pc = drv.call(["compile", rd, "MapSpec"] + mods, check=False, timeout=600)
+            if pg["js"] is None:
+                pc = drv.call(["compile", pg["dir"], r["spec"]] + pg["mods"], check=False, timeout=600)
                 if '"status":"ok"' not in pc.stdout:
                     raise Inconclusive("replay: the specification program does not compile to TypeScript: %s" % pc.stdout[:300])
-                js_text[0] = ts2js.strip(open(os.path.join(rd, "MapSpec.ts")).read())
-                js_text.append(rd)
+                pg["js"] = ts2js.strip(open(os.path.join(pg["dir"], r["spec"] + ".ts")).read())
+                pg["types"] = {t["name"]: t for t in json.load(open(pg["mir"]))["types"]}
             confirmed = None
             tried = 0
             for v in vs:
                 if "witness" not in v:
                     continue
                 tried += 1
-                got, vals = replay(js_text[0], r["fn"], r["params"], r["ptypes"], v["witness"], js_text[1], "%s_%d" % (r["step"], tried))
+                got, vals = replay(pg["js"], "_%s_Main$main();" % r["spec"], r["fn"], r["params"], r["ptypes"], pg["types"], v["witness"], pg["dir"],
+                                   "%s_%d" % (r["step"], tried))
                 v["replay"] = {"arguments": vals, "panic": got}
-                if got is not None and (got == msg or not msg):
+                if got is not None and (got == msg or not msg.startswith("SPEC")):
                     confirmed = v
                     break
             if confirmed is None:
                 res.inconc("step %s: the solver reports `%s` reachable but %d witness(es) did not replay on the emitted program (model of the heap too weak?)"
-                           % (r["step"], msg, tried))
+                           % (label, msg, tried))
                 continue
             replayed += 1
-            kn = [k for k in known if k.get("step") == r["step"] and k.get("message") == msg]
+            kn = [k for k in known if k.get("step") == label and k.get("message") == msg]
             if kn:
-                res.known("%s std Map %s: %s" % (kn[0]["id"], r["step"], kn[0]["short"]))
+                res.known("%s std %s: %s" % (kn[0]["id"], label, kn[0]["short"]))
             else:
-                res.violation("std Map %s: `%s` is reachable from a valid tree (%d paths; witness replayed on the emitted program: %s)"
-                              % (r["step"], msg or "match fallback / Bad tree", len(vs), json.dumps(confirmed["replay"]["arguments"])),
-                              {"property": "C18", "step": r["step"], "message": msg, "example": confirmed,
-                               "how_to_replay": "compile corpus_spec/MapSpec.sam with the real compiler, strip types from MapSpec.ts (vlib/ts2js.py), call %s(...arguments) in node" % r["fn"]})
-        res.sample({k: v for k, v in r.items() if k != "violations"})
+                res.violation("std %s: `%s` is reachable from a valid tree (%d paths; witness replayed on the emitted program: %s)"
+                              % (label, msg or "match fallback / Bad tree", len(vs), json.dumps(confirmed["replay"]["arguments"])),
+                              {"property": "C18", "step": label, "message": msg, "example": confirmed,
+                               "how_to_replay": "compile corpus_spec/%s.sam with the real compiler, strip types from %s.ts (vlib/ts2js.py), call %s(...arguments) in node"
+                                                % (r["spec"], r["spec"], r["fn"])})
+        res.sample({k: v for k, v in r.items() if k not in ("violations", "params", "ptypes")})
     res.coverage.update({
         "states": max(1, total_paths), "transitions": max(1, len(results)), "traces_validated_against_impl": replayed,
-        "steps": [{k: v for k, v in r.items() if k != "violations"} for r in results],
-        "bounds": {"tree height": "get/remove/min/max/size: <= 3, insert: <= 2", "keys": "|k| < 10^9 (Int.compare cannot overflow)",
-                   "time per step (s)": {s: secs * scale for s, secs in STEPS_QUICK}},
+        "steps": [{k: v for k, v in r.items() if k not in ("violations", "params", "ptypes")} for r in results],
+        "bounds": {"tree height": "<= 3 (insert / update(Some) / two-tree operations / map: <= 2; removal of the root: <= 4; fromList: lists of <= 3 elements)",
+                   "keys": "|k| < 10^9 (Int.compare cannot overflow)",
+                   "time per step (s)": {"%s.%s" % (j[1], j[2]): j[3] for j in jobs}},
+        "seed": res.seed,
         "explanation": "states = symbolic paths explored (each a tree shape x key ordering class, all key/value integers symbolic); one inductive "
-                       "step per operation from an arbitrary tree satisfying the representation invariant written in corpus_spec/MapSpec.sam",
+                       "step per operation from arbitrary trees satisfying the representation invariant written in corpus_spec/*.sam; "
+                       "`bounded` paths were cut by the time budget and are not claimed; with VERIF_SEED != 0 the order in which the two sides of a "
+                       "decision are explored is drawn from the seed, so budget-limited steps cover a different part of the path space per seed",
     })
     res.assumptions += [
-        "the representation invariant and the finite-map meaning are the ones written in corpus_spec/MapSpec.sam (BST order, exact stored heights, |hl - hr| <= 2, Node height >= 2)",
-        "executed on the unoptimized MIR of the real compiler (the optimizer is validated separately under C02)",
-        "only Map<Int, int>; Set and List, union / merge / split / filter / fold are not covered",
+        "the representation invariant and the finite-map / finite-set meaning are the ones written in corpus_spec/MapSpec.sam and SetSpec.sam (BST order, exact stored heights, |hl - hr| <= 2, Node height >= 2)",
+        "executed on the unoptimized MIR of the real compiler (the optimizer and the back ends are validated separately under C01 / C02)",
+        "Map<Int, int> and Set<Int> only; predicates / functions passed to higher-order operations are the fixed closures of the specification programs",
+        "not covered: List operations on their own, Map.union / merge (do not compile: F13), iter, other key types, trees above the height bounds",
     ]
